@@ -73,6 +73,13 @@ pub fn subjects(thorough: bool) -> Vec<(String, Logical)> {
             v.push((format!("big-tile-{size}/{}", cname(c)), l));
         }
     }
+    // tile data of more than one MiB that is not a whole number of MiB (a writer that streams the section in blocks
+    // has a last, shorter block), and of exactly 2 MiB
+    for (size, c) in [(1_100_000usize, Compression::None), ((3 << 20) + 5, Compression::GZip), ((2 << 20) - 3, Compression::None)] {
+        let mut l = small_logical(c);
+        l.tiles.insert(9, crate::common::xorshift_bytes(size as u64, size));
+        v.push((format!("big-tile-{size}/{}", cname(c)), l));
+    }
     if thorough {
         // every partial map of three ids into four contents, all codecs
         for c in COMPS {
@@ -111,7 +118,7 @@ pub fn judge_prefix(l: &Logical, complete: &[u8], image: &[u8]) -> Option<(Strin
 pub fn run(tier: &str) -> i32 {
     let rep = Report::new("C17", tier, "fault_enumeration");
     let thorough = rep.thorough();
-    rep.rule("archives with 0, 1, 3 and 60 tiles x 4 compressions and leaf-spilling archives x {sync,async} writer: the recorded log of N seek/write/flush/close operations on a fresh stream; for EVERY k in [0,N] the image after the first k operations (each write atomic) is opened with the sync and the async reader; oracle: Err unless the image is byte-identical to the complete archive (then it must read back as the logical archive); non-trivial = crash points with >=1 write applied; distinct = (archive, writer, k)");
+    rep.rule("archives with 0, 1, 3 and 60 tiles x 4 compressions, archives with one tile of 12 KB, 70 KB, 1.05 MiB, 2 MiB and 3 MiB, and leaf-spilling archives x {sync,async} writer: the recorded log of N seek/write/flush/close operations on a fresh stream; for EVERY k in [0,N] the image after the first k operations (each write atomic) is opened with the sync and the async reader; oracle: Err unless the image is byte-identical to the complete archive (then it must read back as the logical archive); non-trivial = crash points with >=1 write applied; distinct = (archive, writer, k)");
     rep.assume("each write call is atomic and writes land in program order (no reordering below the stream), as the property states");
     let subs = subjects(thorough);
     for (name, l) in subs.iter() {
